@@ -66,7 +66,8 @@ CLAIMED = {
         text='Decides for 4 prefix shapes (short, long, empty, containing the delimiter) x 6 offset patterns (single, '
              'unsorted, gaps, duplicates) x 2 suffix widths x optional second interleaved prefix x strings/objects-with-'
              'id that the emitted ranges denote exactly the identifiers given (none lost or added), each spelled as it '
-             'came, that list and string forms agree, that non-string ids and non-integer suffixes are rejected; and for '
+             'came, that list and string forms agree, that non-string ids and non-integer suffixes (letters, 1.5, 1e3) are '
+             'rejected; and for '
              '10+ token-width patterns x 5 width settings that obj_to_cti keeps every token once and in order, adds only '
              'separators, and lets no line exceed its limit unless it holds a single token.',
         note=STATIC_NOTE + 'Prefix parts are letter strings; suffixes are base+offset integers; bounded to the '
@@ -226,12 +227,14 @@ CLAIMED = {
              '0-2 transition-state species) x stoich_space x coefficient format that Reaction.from_string(to_string()) '
              'returns the same species objects, coefficients (to the printed precision) and transition state for all '
              'species names at once; that repeated species are merged by summation, omitted/integer/decimal '
-             'coefficients and surrounding blanks are parsed, unknown species raise KeyError; that '
+             'coefficients and surrounding blanks are parsed, unknown species (six positions, and the transition state) '
+             'raise KeyError whose message names the species that is missing and none that was found; that '
              'check_element_balance accepts reactions balanced by construction and refuses ones unbalanced in the '
              'products or in the transition state (symbolic stoichiometry and compositions); that parse_formula sums '
              'repeated symbols, reads missing counts as one and handles two-letter symbols.',
         note=STATIC_NOTE + 'Names are assumed to contain no delimiter/blank and not to start with a digit (as the '
-             'property restricts them); the two regular expressions must have the modelled shape (else exit 2); '
+             'property restricts them); the regular expressions of the parser are decided on the abstract strings '
+             '(pmv/absre.py); '
              'Counter\'s dropping of non-positive totals is not modelled.',
         ref='DESIGN.md section 4 C14'),
     'C15': dict(
@@ -250,7 +253,9 @@ CLAIMED = {
         technique='abstract interpretation of get_net_comp with scipy.optimize.minimize as an uninterpreted, recording '
                   'solver; symbolic differentiation of the objective and constraint handed to it',
         text='NARROW CLAIM - decides only the clauses visible in the code: a failed optimisation (success=False) is '
-             'signalled by a warning or exception before the result is returned; the objective handed to the solver is '
+             'signalled by an exception or by a warning that no filter installed by the package discards; every problem '
+             'is built through the public constructor (five networks, model in the network\'s order and in another order '
+             'with a species more, dict and list) and asked twice at different conditions; the objective handed to the solver is '
              'sum x_i(g_i + ln(x_i p/n)) with the species\' own G/RT in the order of the amounts and its Jacobian is the '
              'exact gradient (2-4 species); the equality constraint is x.M minus the feed element totals and its '
              'Jacobian is its derivative (M transposed); amounts are bounded below by a positive constant; mole '
